@@ -519,8 +519,12 @@ expandfunc(struct macro *m)
 				case TLPAREN: ++paren; break;
 				case TRPAREN: --paren; break;
 				}
-				if (p->flags & PARAMSTR)
+				if (p->flags & PARAMSTR) {
+					/* the string is located at the first token of the argument */
+					if (str.len == 1 && t->kind != TNEWLINE)
+						strloc = t->loc;
 					stringize(&str, t);
+				}
 			}
 			if (p->flags & PARAMTOK) {
 				/* as in next(): the lookahead of expand() may release the storage of `t` */
